@@ -747,3 +747,34 @@ def shipped_databases():
         # read_database stops at the first END line; a database without one is read to end-of-file
         out.append((str(d), bool(re.search(rb"(?im)^[ \t]*END[ \t]*\r?$", d.read_bytes()))))
     return out
+
+
+# ------------------------------------------------------------------------------------------------ numerical give-up paths
+
+def numerics_input(rng):
+    """inputs whose *calculation* gives up with an ERROR: CVODE out of internal steps / restarts, Runge-Kutta out of bad steps, Newton out of
+    iterations — the error paths that free or keep solver memory"""
+    rate = rng.choice(["1e-3 * M", "1e-3 * M", "1e3 * M", "1e6 * M * (1 - SR(\"Halite\"))", "M / (1e-9 + TOT(\"Na\"))", "-1e-3 * M", "1e-3 * M * TOT(\"Cl\")^2"])
+    rates = f"RATES\nDecay\n-start\n10 rate = {rate}\n20 SAVE rate * TIME\n-end\n"
+    pre = rng.choice(["", "", "EQUILIBRIUM_PHASES 1\n Calcite 0 1\n", "EXCHANGE 1\n X 0.1\n -equilibrate 1\n", "GAS_PHASE 1\n -fixed_volume\n CO2(g) 0.1\n",
+                      "SURFACE 1\n Hfo_wOH 0.01 600 1\n -equilibrate 1\n"])
+    steps = rng.choice(["1000 in 2", "1000 in 2", "1e6 in 3", "10", "1 10 100 1000", "1e9"])
+    r = rng.random()
+    if r < 0.55:
+        kind = "cvode-exhaust"
+        opts = f" -cvode true\n -cvode_steps {rng.choice([1, 1, 2, 3, 5])}\n -bad_step_max {rng.choice([1, 1, 2, 3])}\n -cvode_order {rng.choice([1, 2, 5])}\n"
+    elif r < 0.8:
+        kind = "rk-exhaust"
+        opts = f" -cvode false\n -runge_kutta {rng.choice([1, 2, 3, 6])}\n -bad_step_max {rng.choice([1, 2, 5])}\n -tol {rng.choice(['1e-14', '1e-10', '1e-8'])}\n -step_divide {rng.choice([1, 2, 100])}\n"
+    else:
+        kind = "newton-exhaust"
+        opts = " -cvode " + rng.choice(["true", "false"]) + "\n"
+        pre = f"KNOBS\n -iterations {rng.choice([1, 2, 3])}\n -tolerance {rng.choice(['1e-18', '1e-15'])}\n -step_size {rng.choice([1.0001, 2, 100])}\n" + pre
+    sims = rng.choice([1, 1, 2])
+    t = "SOLUTION 1\n pH 7\n Na 1\n Cl 1\n Ca 1\n C 2\n" + pre + rates + f"KINETICS 1\nDecay\n -formula NaCl 1\n -m0 1\n -steps {steps}\n" + opts
+    if rng.random() < 0.3:
+        t += "INCREMENTAL_REACTIONS true\n"
+    t += "END\n"
+    if sims == 2:
+        t += "SOLUTION 2\n Na 1\n Cl 1\nEND\n"
+    return b(t), kind
